@@ -16,6 +16,7 @@ var units = map[string]common.UnitFunc{
 	"c16":         unitC16,
 	"c17":         unitC17,
 	"c20core":     unitC20core,
+	"c10core":     unitC10core,
 	"c11scripted": unitC11scripted,
 	"c07honest":   unitC07honest,
 	"c07byz":      unitC07byz,
